@@ -444,6 +444,7 @@ def rule_buffer_splits(ctx):
     g, mf, res = an.get(fn)
     # inside-frame branch: the payload cut and the kept remainder must split the buffer at the same index min(buffered, rest of frame)
     from ..core.tiny import Tiny, Buf
+    from .common import inline_private
     top = [st for st in fn.node.body if isinstance(st, ast.If) and norm.text(st.test) == "self.current_frame is None"]
     ctx.require(len(top) == 1, "processData: `if self.current_frame is None` split not found")
     pre = fn.node.body[:fn.node.body.index(top[0])]
@@ -463,7 +464,8 @@ def rule_buffer_splits(ctx):
                     R = L - ptr
                     cut = min(B, R)
                     t = Tiny({"self.data": Buf(0, B), "self.current_frame.length": L},
-                             calls={"self.current_frame_masker.pointer()": ptr, "self.current_frame_masker.process": lambda x: x})
+                             calls={"self.current_frame_masker.pointer()": ptr, "self.current_frame_masker.process": lambda x: x},
+                             inline_self=inline_private(ctx, ctx.program.cls(WSP)))
                     t.run(pre)
                     r = t.run(inside, stop=lambda st: has_call(st, "onFrameData"))
                     if r[0] != "stop":
@@ -696,8 +698,17 @@ def rule_adapters(ctx):
     tw = ctx.program.func("autobahn.twisted.websocket.WebSocketAdapterProtocol.dataReceived")
     cs = [c for c in calls_in(tw.node) if self_call(c, "_dataReceived")]
     ctx.ob("twisted dataReceived forwards the chunk to _dataReceived", len(cs) == 1 and [norm.text(a) for a in cs[0].args] == [tw.params()[1]], "changed", tw.loc())
+    rule_asyncio_queue(ctx, None)
+
+
+def rule_asyncio_queue(ctx, rule_id):
+    """The asyncio adapter's receive queue (shared with C02: the verdict is independent of the read split, and C07: a handshake arriving in
+    several reads completes): every read is queued at the tail, the consumer hands ALL queued chunks on in arrival order before it re-arms."""
+    if rule_id is not None:
+        ctx.rule(rule_id)
     ai = ctx.program.cls("autobahn.asyncio.websocket.WebSocketAdapterProtocol")
     dr = ai.methods["data_received"]
+    ctx.analysed(dr)
     # the asyncio receive queue, decided cell-wise: every chunk is appended at the tail whatever the state of the waiter; the waiter is
     # woken once; the consumer hands the queued chunks to _dataReceived in arrival order and re-arms itself
     from ..core.tiny import Tiny, Sym
@@ -726,13 +737,13 @@ def rule_adapters(ctx):
                 probs.append(f"{cell}: waiter woken {len(woke)} time(s)")
         ctx.ob("asyncio data_received enqueues every chunk at the tail and wakes the consumer once [6 cells]", not probs, "; ".join(probs[:2]), dr.loc())
     except AnalysisError as e:
-        raise AnalysisError(f"[C01.6-adapter-agreement] asyncio data_received outside the modelled subset: {e}")
+        raise AnalysisError(f"[{ctx.cur_rule}] asyncio data_received outside the modelled subset: {e}")
     cons = ai.methods["_consume"]
     proc = cons.nested().get("process")
     ctx.require(proc is not None, "asyncio _consume.process closure not found")
     probs = []
     try:
-        for n_, has_tr in itertools.product((0, 1, 3), (True, False)):
+        for n_, has_tr in itertools.product((3, 1, 0), (True, False)):
             got, rearm = [], []
             q = _Deque(Sym(f"chunk-{i}") for i in range(n_))
             order = list(q)
@@ -758,7 +769,7 @@ def rule_adapters(ctx):
                 probs.append(f"{cell}: consumer re-armed {len(rearm)} times")
         ctx.ob("asyncio consumer hands the queued chunks to _dataReceived in arrival order, then re-arms itself [6 cells]", not probs, "; ".join(probs[:2]), cons.loc())
     except AnalysisError as e:
-        raise AnalysisError(f"[C01.6-adapter-agreement] asyncio _consume.process outside the modelled subset: {e}")
+        raise AnalysisError(f"[{ctx.cur_rule}] asyncio _consume.process outside the modelled subset: {e}")
 
 
 def rule_stream_frame_data(ctx):
